@@ -681,6 +681,50 @@ def _traj_case(args):
     return out
 
 
+def _traj_digest(path, seed, steps):
+    """canonical dump of a seeded trajectory (states, observations, rewards, done flags) under fixed pseudo-random actions"""
+    import hashlib
+    import random as pyrandom
+    import miniyaml
+    from gym_gridverse.envs.yaml.factory import factory_env_from_data
+    env = factory_env_from_data(miniyaml.loads(open(path).read()))
+    env.set_seed(seed)
+    r = pyrandom.Random(f'{seed}:digest')
+    h = hashlib.sha256()
+    env.reset()
+    for t in range(steps):
+        st, ob = env.state, env.observation
+        h.update(repr((st.grid, st.agent.position, st.agent.orientation, st.agent.grid_object,
+                       ob.grid, ob.agent.grid_object)).encode())
+        reward, done = env.step(r.choice(env.action_space.actions))
+        h.update(repr((reward, done)).encode())
+        if done:
+            env.reset()
+    return h.hexdigest()
+
+
+def _hashseed_case(args):
+    """the same configuration and seed in fresh interpreter processes with different PYTHONHASHSEED values"""
+    import subprocess
+    path, seed, steps, hashseeds = args
+    digests = {}
+    for hs in hashseeds:
+        env = dict(os.environ, PYTHONHASHSEED=str(hs), PYVC_REPO=native.REPO)
+        p = subprocess.run([sys.executable, os.path.abspath(__file__), 'digest', path, str(seed), str(steps)],
+                           capture_output=True, text=True, env=env, timeout=600)
+        lines = [l for l in p.stdout.splitlines() if l.startswith('DIGEST ')]
+        digests[hs] = lines[-1] if lines else 'ERR ' + p.stderr[-300:]
+    out = {'evaluations': len(hashseeds), 'nontrivial': 1, 'failures': []}
+    if any(v.startswith('ERR') for v in digests.values()):
+        out['failures'].append({'what': 'trajectory digest could not be computed in a fresh process', 'prop': 'C02',
+                                'config': os.path.basename(path), 'seed': seed, 'error': [v for v in digests.values() if v.startswith('ERR')][0]})
+    elif len(set(digests.values())) != 1:
+        out['failures'].append({'what': 'same configuration and seed, different PYTHONHASHSEED: different trajectory',
+                                'prop': 'C02', 'config': os.path.basename(path), 'seed': seed, 'steps': steps,
+                                'hashseeds': {str(k): v for k, v in digests.items()}})
+    return out
+
+
 def trajectories(tier, seed):
     top, reg = _shipped_configs()
     failures = []
@@ -690,12 +734,16 @@ def trajectories(tier, seed):
             failures.append({'what': 'packaged copy of a configuration differs', 'prop': 'C17', 'config': os.path.basename(f)})
     nseeds, steps = (3, 100) if tier == 'quick' else (12, 300)
     cases = [(f, seed * 100 + s, steps) for f in top for s in range(nseeds)]
+    hs_cases = [(f, seed * 100 + 7, 40 if tier == 'quick' else 150, (1, 2, 3) if tier == 'quick' else (1, 2, 3, 4, 5, 6))
+                for f in top]
     with mp.Pool(16) as pool:
         res = pool.map(_traj_case, cases, chunksize=1)
+        res += pool.map(_hashseed_case, hs_cases, chunksize=1)
     failures += [f for r in res for f in r['failures']]
     return {
         'what': 'trajectories of every shipped configuration (built by the real YAML factory): stateful = functional, '
-                'same seed interleaved = same trajectory, global generators untouched, closure, kinematic invariant, '
+                'same seed interleaved = same trajectory, same seed in fresh processes with different PYTHONHASHSEED = '
+                'same trajectory, global generators untouched, closure, kinematic invariant, '
                 'conservation, door rule, exit termination, representations inside their spaces, gym adapter',
         'bound': f'{len(top)} configurations x {nseeds} seeds x {steps} random steps with random read patterns and resets',
         'evaluations': sum(r['evaluations'] for r in res),
@@ -708,6 +756,11 @@ def trajectories(tier, seed):
 
 ITEMS['trajectories'] = trajectories
 
+
+if __name__ == '__main__' and len(sys.argv) > 1 and sys.argv[1] == 'digest':
+    native.setup_path()
+    print('DIGEST ' + _traj_digest(sys.argv[2], int(sys.argv[3]), int(sys.argv[4])))
+    sys.exit(0)
 
 if __name__ == '__main__':
     main()
